@@ -36,12 +36,12 @@ P['C02'] = {
 }
 
 P['C13'] = {
-    'units': ['kani:hdlc'],
-    'technique': 'Kani/CBMC full-domain proofs of the HDLC kernels (bits2byte, calc_crc+FCSTAB) on the compiled crate',
-    'level_text': 'Kernel level only: bits2byte equals the LSB-first sum for all 256 bit vectors; calc_crc equals the bit-at-a-time CRC-16/X.25 definition for every message of length 1 and 2 (quick) and 3, 4 (thorough), which pins all 256 FCSTAB entries and the byte-composition step. The framing automaton (update_state / work) is NOT decided.',
+    'units': ['hdlc', 'kani:hdlc'],
+    'technique': 'Verus contracts (the per-bit HDLC rules as postconditions) on the real HdlcDeframer::update_state / work; Kani/CBMC full-domain proofs of bits2byte and calc_crc+FCSTAB',
+    'level_text': 'Automaton + kernels: for every state and every input bit update_state follows the HDLC rules (flag opens a frame, a zero after five ones is discarded, seven ones abort, over-long frames are dropped only beyond max_size bytes, a closing flag re-opens); nothing is emitted unless the buffered bits are whole bytes >= min_size and (checksum on, no bit fixing) the CRC equals the FCS; such a frame IS emitted; never Err or panic; work() feeds every bit of its window. bits2byte for all 256 vectors; calc_crc == bitwise CRC-16/X.25 for all messages of length 1, 2 (thorough 3, 4). The framing-then-deframing round trip is NOT proved.',
     'level_note': 'Complete per stated message length (labelled bounded in evidence); arbitrary-length CRC and the framing state machine (owned Vec swapped through an enum, iterator-built byte vectors) are outside Verus\' subset and Kani cannot run a stream. Kani/CBMC trusted.',
-    'not_covered': ['HdlcDeframer::work / update_state (framing automaton, bit unstuffing, size bounds, bit fixing)', 'calc_crc for messages longer than 4 bytes'],
-    'assumptions': ['a block-level decision of C13 (every valid frame recovered in any chunking) is not made by this check'],
+    'not_covered': ['end-to-end round trip deframe(frame(p)) == p (needs an encoder spec and an induction over bit stuffing)', 'find_right_crc (single-bit fixing) is a trusted callee', 'calc_crc for messages longer than 4 bytes'],
+    'assumptions': ['find_right_crc contract trusted; spec_crc / spec_byte are tied to calc_crc / bits2byte only through the Kani group', 'chunk independence of HdlcDeframer (C08) is not claimed: the automaton state is carried in self.state and work() applies update_state bit by bit, but no mirror function of the whole automaton is proved'],
 }
 P['C14'] = {
     'units': ['kani:codecs'],
@@ -79,7 +79,7 @@ P['C08'] = {
     'not_covered': _NOT_COVERED_BLOCKS, 'assumptions': _BLOCK_ASSUME,
 }
 P['C09'] = {
-    'units': list(_BU) + _FIR,
+    'units': list(_BU) + _FIR + ['hdlc'],
     'technique': 'Verus: call-site preconditions of consume/produce (n <= window, window belongs to the stream, not stale) and verdict postconditions on each covered work()',
     'level_text': 'Deductive proof for the same subset: every consume/produce call site stays within its window; WaitForStream(s, need) is returned only when stream s offered fewer than need in this call; Again only from a call that consumed or produced; an empty input window yields a wait on the input. No window escapes work() (windows are moved into consume/produce or dropped; checked syntactically by rule X-WIN).',
     'level_note': 'Subset only. "holds no window after return" is a syntactic check of the extractor, stated as such.',
@@ -100,7 +100,7 @@ P['C12'] = {
     'not_covered': _NOT_COVERED_BLOCKS + ['FirFilter / FftFilter / Hilbert tag forwarding'], 'assumptions': _BLOCK_ASSUME,
 }
 P['C15'] = {
-    'units': ['skip', 'delay', 'v2s', 'fir', 'resampler', 'kani:lfsr', 'kani:hdlc', 'kani:codecs'],
+    'units': ['skip', 'delay', 'v2s', 'fir', 'resampler', 'hdlc', 'kani:lfsr', 'kani:hdlc', 'kani:codecs'],
     'technique': 'Verus panic-freedom obligations (refuse/overflow/bounds/callee preconditions unreachable for arbitrary sample values) + Kani totality harnesses over all input bytes',
     'level_text': 'Deductive proof for a stated subset: in the covered work() bodies no panic site is reachable for any sample values; bits2byte, calc_crc (lengths 1..2, thorough ..4) and the codecs\' parse never panic for any byte values; the two LFSR steps are checked for every input byte.',
     'level_note': 'Subset only: AuDecode header arithmetic, HdlcDeframer::update_state, wpcr, sigmf, StreamToPdu, symbol sync, zero crossing are not decided.',
